@@ -58,13 +58,13 @@ def buildFunction (reg : Registry) (scope : List Path) (isVfunc : Bool) (f : G.F
       | some body =>
         match Res.mapM' (buildArg reg scope) f.args with
         | .ok args =>
-          -- `return_type.and_then(resolve)`: an unresolvable return type is dropped
+          -- `return_type.map(resolve .ok_or_else(..)).transpose()?`
           let retR : Res (Option DTy) :=
             match f.ret with
             | none => .ok none
             | some t => match reg.resolveTy scope t with
               | .ok t => .ok (some t)
-              | .defer => .ok none
+              | .defer => .err "failed to resolve return type of function"
               | .err m => .err m
               | .panic s => .panic s
           match retR with
@@ -89,22 +89,35 @@ def makePadding (out : List SFunc) (target : Nat) : Res (List SFunc) :=
   if n > paddingLoopBound then .panic "make_padding_functions: unbounded padding loop"
   else .ok (out ++ (List.range n).map fun j => placeholderFn (out.length + j))
 
-/-- last `#[index(N)]` attribute, `as usize` -/
-def indexAttr (attrs : List G.Attr) : Option Nat :=
-  attrs.foldl (fun acc a => match a with | .fn "index" [.int i] => some (asUsize i) | _ => acc) none
+/-- last `#[index(N)]` attribute, `usize::try_from`; a negative one is an error -/
+def indexAttr (attrs : List G.Attr) : Res (Option Nat) :=
+  Res.foldlM (fun acc a => match a with
+    | .fn "index" [.int i] => match tryUsize i with
+      | some v => .ok (some v)
+      | none => .err "failed to convert `index` attribute into usize"
+    | _ => .ok acc) none attrs
 
 /-- `convert_grammar_functions_to_semantic_functions` -/
 def convertVfuncs (reg : Registry) (scope : List Path) (size : Option Nat) (fns : List G.Func) :
     Res (List SFunc) :=
   match Res.foldlM (fun (out : List SFunc) (f : G.Func) =>
-      match (match indexAttr f.attrs with | some i => makePadding out i | none => .ok out) with
-      | .ok out1 =>
-        match buildFunction reg scope true f with
-        | .ok sf => .ok (out1 ++ [sf])
-        | e => e.cast
-      | e => e) [] fns with
+      match indexAttr f.attrs with
+      | .ok idx =>
+        match (match idx with
+          | some i =>
+            if i < out.length then Res.err "vftable function is declared at an index that is already occupied"
+            else makePadding out i
+          | none => .ok out) with
+        | .ok out1 =>
+          match buildFunction reg scope true f with
+          | .ok sf => .ok (out1 ++ [sf])
+          | e => e.cast
+        | e => e
+      | e => e.cast) [] fns with
   | .ok out => match size with
-    | some n => makePadding out n
+    | some n =>
+      if n < out.length then .err "vftable is declared with a size smaller than the slots its functions occupy"
+      else makePadding out n
     | none => .ok out
   | e => e
 
@@ -169,6 +182,9 @@ def buildVftable (s : State) (owner : Path) (vis : Vis) (firstBase : Option Regi
     | none => (s, .ok (none, none))
     | some item =>
       let ptrTy : DTy := .cptr (.raw item.path)
+      if (match s.reg.get item.path with | some existing => existing != item | none => false) then
+        (s, .err "generated vftable type conflicts with another definition of that name")
+      else
       match s.addItem item with
       | .ok s1 =>
         (s1,
@@ -235,9 +251,13 @@ def fieldAttrStep (st : FieldAttrs) (a : G.Attr) : Res FieldAttrs :=
     | none => .err "failed to convert `address` attribute into usize"
   | _ => .ok st
 
-/-- last `#[size(N)]` attribute of the vftable statement, `as usize` -/
-def vftableSizeAttr (attrs : List G.Attr) : Option Nat :=
-  attrs.foldl (fun acc a => match a with | .fn "size" [.int i] => some (asUsize i) | _ => acc) none
+/-- last `#[size(N)]` attribute of the vftable statement, `usize::try_from` -/
+def vftableSizeAttr (attrs : List G.Attr) : Res (Option Nat) :=
+  Res.foldlM (fun acc a => match a with
+    | .fn "size" [.int i] => match tryUsize i with
+      | some v => .ok (some v)
+      | none => .err "failed to convert `size` attribute into usize for vftable"
+    | _ => .ok acc) none attrs
 
 structure StmtAcc where
   pending : List (Option Nat × Region) := []
@@ -263,8 +283,11 @@ def stmtStep (reg : Registry) (scope : List Path) (acc : StmtAcc) (ist : Nat × 
   | .vftable fns =>
     if idx != 0 then .err "vftable field must be the first field"
     else
-      match convertVfuncs reg scope (vftableSizeAttr st.attrs) fns with
-      | .ok sfs => .ok { acc with vfns := some sfs }
+      match vftableSizeAttr st.attrs with
+      | .ok size =>
+        match convertVfuncs reg scope size fns with
+        | .ok sfs => .ok { acc with vfns := some sfs }
+        | e => e.cast
       | e => e.cast
 
 def toPField (reg : Registry) (addr : Option Nat) (r : Region) : Layout.PField Region :=
@@ -407,23 +430,43 @@ def buildType (s : State) (path : Path) (vis : Vis) (d : G.TypeDef) : State × R
 
 structure EnumAcc where
   fields : List (String × Int) := []
-  last : Int := 0
+  /-- value of the next case if not written; `none` after `isize::MAX` -/
+  last : Option Int := some 0
   defaultIdx : Option Nat := none
 
-def enumStmtStep (acc : EnumAcc) (st : G.EnumStmt) : Res EnumAcc :=
+/-- `integer_type_range`: accepted value range of a built-in integer base type -/
+def intTypeRange (ty : DTy) : Option (Int × Int) :=
+  match ty with
+  | .raw [name] =>
+    let r (signed : Bool) (bits : Nat) : Option (Int × Int) :=
+      if bits = 128 then some (-(2 ^ 127), 2 ^ 127 - 1)
+      else if signed then some (-(2 ^ (bits - 1)), 2 ^ (bits - 1) - 1)
+      else some (-(2 ^ (bits - 1)), 2 ^ bits - 1)
+    if name = "u8" then r false 8 else if name = "u16" then r false 16
+    else if name = "u32" then r false 32 else if name = "u64" then r false 64
+    else if name = "u128" then r false 128
+    else if name = "i8" then r true 8 else if name = "i16" then r true 16
+    else if name = "i32" then r true 32 else if name = "i64" then r true 64
+    else if name = "i128" then r true 128
+    else none
+  | _ => none
+
+def enumStmtStep (range : Int × Int) (acc : EnumAcc) (st : G.EnumStmt) : Res EnumAcc :=
   match (match st.expr with
     | some (.int v) => Res.ok v
     | some _ => .err "unsupported enum value"
-    | none => .ok acc.last) with
+    | none => match acc.last with
+      | some v => .ok v
+      | none => .err "value for case does not fit in an isize") with
   | .ok value =>
+    if value < range.1 || value > range.2 then .err "value does not fit in the enum's base type" else
     let fields := acc.fields ++ [(st.name, value)]
     match Res.foldlM (fun (di : Option Nat) (a : G.Attr) =>
         match a with
         | .ident "default" => if di.isSome then .err "enum has multiple default variants" else .ok (some (fields.length - 1))
         | _ => .ok di) acc.defaultIdx st.attrs with
     | .ok di =>
-      if value + 1 > isizeMax then .panic "enum: value + 1"
-      else .ok { fields, last := value + 1, defaultIdx := di }
+      .ok { fields, last := if value + 1 > isizeMax then none else some (value + 1), defaultIdx := di }
     | e => e.cast
   | e => e.cast
 
@@ -433,13 +476,16 @@ structure EnumAttrs where
   cloneable : Bool := false
   defaultable : Bool := false
 
-def enumAttrStep (st : EnumAttrs) (a : G.Attr) : EnumAttrs :=
+def enumAttrStep (st : EnumAttrs) (a : G.Attr) : Res EnumAttrs :=
   match a with
-  | .ident "copyable" => { st with copyable := true, cloneable := true }
-  | .ident "cloneable" => { st with cloneable := true }
-  | .ident "defaultable" => { st with defaultable := true }
-  | .fn "singleton" [.int v] => { st with singleton := some (asUsize v) }
-  | _ => st
+  | .ident "copyable" => .ok { st with copyable := true, cloneable := true }
+  | .ident "cloneable" => .ok { st with cloneable := true }
+  | .ident "defaultable" => .ok { st with defaultable := true }
+  | .fn "singleton" [.int v] =>
+    match tryUsize v with
+    | some n => .ok { st with singleton := some n }
+    | none => .err "failed to convert `singleton` attribute into usize for enum"
+  | _ => .ok st
 
 /-- `enum_definition::build` -/
 def buildEnum (s : State) (path : Path) (d : G.EnumDef) : Res Resolved :=
@@ -451,12 +497,16 @@ def buildEnum (s : State) (path : Path) (d : G.EnumDef) : Res Resolved :=
       match ty.size s.reg with
       | .ok none => .defer
       | .ok (some size) =>
-        match Res.foldlM enumStmtStep {} d.stmts with
+        match intTypeRange ty with
+        | none => .err "the base type of the enum is not a built-in integer type"
+        | some range =>
+        match Res.foldlM (enumStmtStep range) {} d.stmts with
         | .ok acc =>
           match G.docOf d.attrs with
           | none => .err "doc attribute must be a string literal"
           | some doc =>
-            let ea := d.attrs.foldl enumAttrStep {}
+            match Res.foldlM enumAttrStep {} d.attrs with
+            | .ok ea =>
             if ea.defaultable && acc.defaultIdx.isNone then
               .err "enum is marked as defaultable but has no default variant set"
             else if !ea.defaultable && acc.defaultIdx.isSome then
@@ -469,6 +519,7 @@ def buildEnum (s : State) (path : Path) (d : G.EnumDef) : Res Resolved :=
                       inner := .enum { ty, doc, fields := acc.fields, singleton := ea.singleton,
                                        copyable := ea.copyable, cloneable := ea.cloneable,
                                        defaultable := ea.defaultable, defaultIdx := acc.defaultIdx } }
+            | e => e.cast
         | e => e.cast
       | e => e.cast
     | e => e.cast
@@ -488,9 +539,13 @@ def State.new (ps : Nat) : State :=
     | .ok s' => s'
     | _ => s) s0
 
-/-- last `#[address(N)]` of an extern value, `as usize` -/
-def xvalAddress (attrs : List G.Attr) : Option Nat :=
-  attrs.foldl (fun acc a => match a with | .fn "address" [.int v] => some (asUsize v) | _ => acc) none
+/-- last `#[address(N)]` of an extern value, `usize::try_from` -/
+def xvalAddress (attrs : List G.Attr) : Res (Option Nat) :=
+  Res.foldlM (fun acc a => match a with
+    | .fn "address" [.int v] => match tryUsize v with
+      | some n => .ok (some n)
+      | none => .err "failed to convert `address` attribute into usize for extern value"
+    | _ => .ok acc) none attrs
 
 structure XTypeAttrs where
   size : Option Nat := none
@@ -510,8 +565,9 @@ def xtypeAttrStep (st : XTypeAttrs) (a : G.Attr) : Res XTypeAttrs :=
 def State.addModule (s : State) (m : G.Module) (path : Path) : Res State :=
   match Res.mapM' (fun (ev : G.XVal) =>
       match xvalAddress ev.attrs with
-      | none => Res.err "failed to find `address` attribute for extern value"
-      | some a => .ok ({ vis := ev.vis, name := ev.name, gty := ev.ty, ty := none, addr := a } : XValue)) m.xvals with
+      | .ok none => Res.err "failed to find `address` attribute for extern value"
+      | .ok (some a) => .ok ({ vis := ev.vis, name := ev.name, gty := ev.ty, ty := none, addr := a } : XValue)
+      | e => e.cast) m.xvals with
   | .ok xvals =>
     match G.docOf m.attrs with
     | none => .err "doc attribute must be a string literal"
@@ -522,8 +578,14 @@ def State.addModule (s : State) (m : G.Module) (path : Path) : Res State :=
           backends := m.backends.map (fun b => (b.name, { prologue := b.prologue, epilogue := b.epilogue })),
           doc }
       let s1 := s.putModule path mod
+      -- every `impl` block must belong to a type defined in this module
+      if m.impls.any (fun b => !(m.defs.any fun d =>
+          d.name == b.name && (match d.inner with | .type _ => true | .enum _ => false))) then
+        .err "impl block does not belong to a type defined in that module"
+      else
       match Res.foldlM (fun (s : State) (d : G.Item) =>
-          s.addItem { vis := d.vis, path := path ++ [d.name], state := .unres d, cat := .defined }) s1 m.defs with
+          if s.reg.contains (path ++ [d.name]) then .err "item is defined more than once"
+          else s.addItem { vis := d.vis, path := path ++ [d.name], state := .unres d, cat := .defined }) s1 m.defs with
       | .ok s2 =>
         Res.foldlM (fun (s : State) (xt : String × List G.Attr) =>
           match Res.foldlM xtypeAttrStep {} xt.2 with
@@ -534,6 +596,9 @@ def State.addModule (s : State) (m : G.Module) (path : Path) : Res State :=
               match xa.align with
               | none => .err "failed to find `align` attribute for extern type"
               | some align =>
+                if !Layout.isPow2 align then .err "alignment of extern type is not a power of two"
+                else if s.reg.contains (path ++ [xt.1]) then .err "item is defined more than once"
+                else
                 s.addItem { vis := .pub, path := path ++ [xt.1],
                             state := .res { size, align, inner := .type {} }, cat := .extern }
           | e => e.cast) s2 m.xtypes
@@ -601,7 +666,7 @@ def resolveLoop (prio : List Path) : Nat → State → BuildOutcome
     else
       match runRound s toResolve with
       | (s1, .ok ()) =>
-        if toResolve == s1.reg.unresolved prio then .nonterm toResolve
+        if toResolve == s1.reg.unresolved prio && s.reg.types.length == s1.reg.types.length then .nonterm toResolve
         else resolveLoop prio fuel s1
       | (_, .err m) => .err m
       | (_, .panic m) => .panic m
